@@ -378,8 +378,8 @@ Proof.
   destruct (_ =? IndentedCodeBlockKind).
   { unfold matchIndented. cbv zeta. destruct (_ <? _); [destruct (negb _)|]; cbn [snd]; try apply invP_consumeIndent; assumption. }
   destruct (_ =? HTMLBlockKind).
-  { unfold matchHTML. destruct (htmlEnd _ _); [|assumption]. cbn [snd]. apply invP_consumeLine.
-    destruct (negb _); [|assumption]. eapply invP_collectInline; [assumption|apply ckind_self|left; reflexivity]. }
+  { unfold matchHTML. destruct (htmlEnd _ _); [|assumption]. destruct (isRestBlank _); [assumption|]. cbn [snd]. apply invP_consumeLine.
+    eapply invP_collectInline; [assumption|apply ckind_self|left; reflexivity]. }
   assumption.
 Qed.
 
